@@ -1695,13 +1695,87 @@ class Interp:
         self.loops.append(summ)
         summ.back_states = list(outs.get(header, []))
         summ.exit_states = {t: list(ss) for t, ss in exits.items()}
+        closed = self.close_build_loop(frame, summ)
         # the states leaving the loop continue under the loop entry's guard extended by the
         # (loop-local) condition under which that exit is taken in the final iteration
         res = {}
         for t, ss in exits.items():
             m = summ.exits[t]
-            res[t] = [State(m.store, st0.guard + m.guard, st0.facts | m.facts)]
+            store = m.store
+            if closed is not None and closed.get('exit') == t:
+                store = dict(store)
+                tmp = State(store, (), frozenset())
+                self.write(tmp, closed['root'], closed['path'], closed['value'])
+            res[t] = [State(store, st0.guard + m.guard, st0.facts | m.facts)]
         return res
+
+    def close_build_loop(self, frame, summ):
+        """BUILD-TRAVERSAL (DESIGN §3.5/§8): a loop that walks one slice (or range) front to back, unconditionally,
+        and pushes exactly one element per iteration onto a vector is the map (or, with carried scalar state, the
+        scan) of its body over that slice.  Returns the closed form of the vector at the `exhausted` exit."""
+        seqs = [(r, p, fv, iv) for r, p, fv, iv in summ.carried if isinstance(fv, SeqSym)]
+        streams = [(r, p, fv, iv) for r, p, fv, iv in summ.carried if isinstance(fv, Stream)]
+        scal = [(r, p, fv, iv) for r, p, fv, iv in summ.carried if isinstance(fv, tuple) and fv and fv[0] == 'sym']
+        other = [x for x in summ.carried if x not in seqs and x not in streams and x not in scal]
+        if other or len(seqs) != 1 or len(streams) != 1 or len(summ.back_states) != 1:
+            return None
+        (qr, qp, qf, q0), (ir, ip, if_, i0) = seqs[0], streams[0]
+        if i0.kind != 'src' or not isinstance(i0.parts[0], SliceRef) or i0.parts[1] == 'mut':
+            return None
+        v0, vf = i0.parts[0], if_.parts[0]
+        if (v0.root, v0.path) == (qr, qp) or vf.end != v0.end:
+            return None
+        ivar = vf.start
+        bs = summ.back_states[0]
+        if [(l[0], l[1]) for l in bs.guard] != [(('icmp', 'lt', ivar, v0.end), True)]:
+            return None
+        try:
+            ib = self.read(bs, ir, ip)
+            qb = self.read(bs, qr, qp)
+        except Unsupported:
+            return None
+        if not (isinstance(ib, Stream) and ib.kind == 'src' and ib.parts[0].start == self.iadd(ivar, iconst(1)) and ib.parts[0].end == v0.end):
+            return None
+        if not (isinstance(qb, SeqPush) and qb.seq == qf):
+            return None
+        val = qb.val
+        absv = self.abstract(bs, val)
+        for x in subterms(absv):
+            if x == ('seq', qf.name):
+                return None
+        # exits: exactly one, on exhaustion, leaving the vector as it was at the head
+        exits = [(t, s) for t, ss in summ.exit_states.items() for s in ss]
+        if len(exits) != 1:
+            return None
+        et, es = exits[0]
+        eg = [(l[0], l[1]) for l in es.guard]
+        if eg not in ([(('icmp', 'ge', ivar, v0.end), True)], [(('icmp', 'lt', ivar, v0.end), False)]):
+            return None
+        try:
+            if self.read(es, qr, qp) != qf:
+                return None
+        except Unsupported:
+            return None
+        # element index relative to the start of the traversed view
+        rel = self.fresh_sym('ι')
+        mapping = {ivar: self.iadd(v0.start, rel)} if v0.start != iconst(0) else {ivar: rel}
+        n = self.isub(v0.end, v0.start)
+        src = Stream('src', (v0, i0.parts[1]))
+        if not scal:
+            body = SeqMap(src, rel, self.subst_value(val, mapping), 'loop', n)
+        else:
+            nxt = []
+            for r, p, fv, iv in scal:
+                try:
+                    nxt.append(self.subst_value(self.read(bs, r, p), mapping))
+                except Unsupported:
+                    return None
+            body = SeqScan(src, rel, tuple(((r, p), fv) for r, p, fv, iv in scal), tuple(iv for r, p, fv, iv in scal),
+                           tuple(nxt), self.subst_value(val, mapping), None, n)
+        value = body if (isinstance(q0, SeqLit) and not q0.elems) else SeqConcat((q0, body))
+        summ.recognised = 'BUILD-TRAVERSAL'
+        self.events.append({'kind': 'scan' if scal else 'collect', 'fn': frame.f['path'], 'line': summ.line, 'seq': body, 'stream': src, 'from_loop': True})
+        return {'exit': et, 'root': qr, 'path': qp, 'value': value}
 
     def _temp_local(self, frame, local):
         return frame.body['locals'][local]['name'] is None
